@@ -126,7 +126,7 @@ def family_suite(seed, count, k, out, drv, budget_s=None):
             variants = []
             for j in range(k):
                 lay = 0 if j == 0 else (1 if j == 1 else 2)
-                gen = GM.Gen(random.Random(f"C04/{seed}/{n}"), layout=lay, lg=random.Random(f"C04/{seed}/{n}/lay{j}"), max_items=5, same_line=(0.3 if lay >= 1 and n % 2 == 0 else 0))      # also in the mild layout, where commands stay on one line: two commands that START on one line
+                gen = GM.Gen(random.Random(f"C04/{seed}/{n}"), layout=lay, lg=random.Random(f"C04/{seed}/{n}/lay{j}"), max_items=5, p_cont=0.3, same_line=(0.3 if lay >= 1 and n % 2 == 0 else 0))      # also in the mild layout, where commands stay on one line: two commands that START on one line
                 variants.append(gen.module())
             cfg = {}
             rend = drv.run([dict(op='render', module=m) for m in variants])
